@@ -231,3 +231,119 @@ Proof. vm_compute. reflexivity. Qed.
 (* "reports" is the back-reference set that emp.boss keeps on emp entities; mgr's link set lives in the same entity *)
 Example child_link_named_like_backref_refused : wf_notrace_b (rename_link_of n_mgr n_offices n_reports C06cp_schema) = false.
 Proof. vm_compute. reflexivity. Qed.
+
+(* ---- equal field names (store_c06_names.go: C06sa, C06sb, C06sc; generated from the harness' own schema text) ----
+   Two sibling child stores (mgr, ctr, tmp of emp), a child store and its parent (mgr / emp), and stores of different families
+   (emp / vend) declare foreign-key constraints / indexes on fields of the SAME NAME that point at the same target store; unique
+   indexes on "name" and set indexes on "marks" exist in several families.  A constraint of the schema names its referrer STORE
+   (CFkCascade rstore field _), so the target store carries one delete constraint per referrer store although
+   "<entity type>.<field>" is the same for all of them (a child store reports the entity type of its parent). *)
+Definition n_ctr : name := [99;116;114].
+Definition n_dept : name := [100;101;112;116].
+Definition n_desk : name := [100;101;115;107].
+Definition n_nick : name := [110;105;99;107].
+Definition n_room : name := [114;111;111;109].
+Definition n_sponsor : name := [115;112;111;110;115;111;114].
+
+Definition C06sa_schema : schema :=
+  [ mkSdef n_dept None false [(n_name, false)] [n_marks]
+      [CUnique n_name false; CSetIdx n_marks; CFkCascade n_mgr n_sponsor CascDelete; CFkCascade n_ctr n_sponsor CascDelete]
+      [];
+    mkSdef n_room None false [(n_name, true)] []
+      [CUnique n_name true; CFkCascade n_mgr n_desk CascNone; CFkCascade n_ctr n_desk CascNone]
+      [];
+    mkSdef n_emp None false [(n_name, false); (n_nick, true)] [n_marks]
+      [CUnique n_name false; CSetIdx n_marks]
+      [];
+    mkSdef n_mgr (Some n_emp) false [(n_sponsor, false); (n_desk, true)] []
+      [CFkCons n_sponsor n_dept false; CFkCons n_desk n_room true]
+      [];
+    mkSdef n_ctr (Some n_emp) false [(n_sponsor, true); (n_desk, true)] []
+      [CFkCons n_sponsor n_dept true; CFkCons n_desk n_room true]
+      [] ].
+
+Definition n_cdesks : name := [99;100;101;115;107;115].
+Definition n_ctrs : name := [99;116;114;115].
+Definition n_mdesks : name := [109;100;101;115;107;115].
+Definition n_mgrs : name := [109;103;114;115].
+Definition n_tmp : name := [116;109;112].
+
+Definition C06sb_schema : schema :=
+  [ mkSdef n_dept None false [(n_name, false)] []
+      [CUnique n_name false; CFkCascade n_mgr n_sponsor CascDelete; CFkCascade n_ctr n_sponsor CascDelete; CFkCascade n_tmp n_sponsor CascDelete]
+      [];
+    mkSdef n_room None false [(n_name, true)] []
+      [CFkRestrict n_mdesks; CFkRestrict n_cdesks]
+      [(n_staff, n_emp, n_sites)];
+    mkSdef n_emp None false [(n_name, false)] [n_roles]
+      [CUnique n_name false]
+      [(n_sites, n_room, n_staff)];
+    mkSdef n_mgr (Some n_emp) false [(n_sponsor, false); (n_desk, true)] []
+      [CFkIndex n_sponsor n_dept n_mgrs false; CFkIndex n_desk n_room n_mdesks true; CSetIdx n_roles]
+      [];
+    mkSdef n_ctr (Some n_emp) false [(n_sponsor, false); (n_desk, true)] []
+      [CFkIndex n_sponsor n_dept n_ctrs false; CFkIndex n_desk n_room n_cdesks true]
+      [];
+    mkSdef n_tmp (Some n_emp) false [(n_sponsor, true)] []
+      [CFkCons n_sponsor n_dept true]
+      [] ].
+
+Definition n_vend : name := [118;101;110;100].
+Definition n_vends : name := [118;101;110;100;115].
+
+Definition C06sc_schema : schema :=
+  [ mkSdef n_dept None false [(n_name, false)] [n_marks]
+      [CUnique n_name false; CSetIdx n_marks; CFkCascade n_mgr n_sponsor CascDelete; CFkCascade n_ctr n_sponsor CascDelete; CFkCascade n_emp n_sponsor CascNone; CFkRestrict n_vends]
+      [];
+    mkSdef n_emp None false [(n_name, false); (n_sponsor, true)] [n_marks]
+      [CUnique n_name false; CSetIdx n_marks; CFkCons n_sponsor n_dept true]
+      [];
+    mkSdef n_vend None false [(n_name, false); (n_sponsor, true)] []
+      [CUnique n_name false; CFkIndex n_sponsor n_dept n_vends true]
+      [];
+    mkSdef n_mgr (Some n_emp) false [(n_sponsor, true); (n_code, true)] []
+      [CUnique n_code true; CFkCons n_sponsor n_dept true]
+      [];
+    mkSdef n_ctr (Some n_emp) false [(n_sponsor, true)] []
+      [CFkCons n_sponsor n_dept true]
+      [] ].
+
+(* wf_notrace_b accepts equal field names in different stores of one family for foreign-key fields (child-level fields are the
+   child store's own fields; get_field of a child store reads its own data first): the theorems of Properties/C06.v apply. *)
+Example C06sa_schema_wf : wf_notrace_b C06sa_schema = true.
+Proof. vm_compute. reflexivity. Qed.
+Example C06sb_schema_wf : wf_notrace_b C06sb_schema = true.
+Proof. vm_compute. reflexivity. Qed.
+Example C06sc_schema_wf : wf_notrace_b C06sc_schema = true.
+Proof. vm_compute. reflexivity. Qed.
+
+(* every target store of these wirings carries one delete constraint per referrer store of an equally named field *)
+Definition cascades_for (sch : schema) (t f : name) : list name :=
+  flat_map (fun k => match k with CFkCascade rs f' _ => if str_eqb f' f then [rs] else [] | _ => [] end) (cons_of sch t).
+Example C06sa_one_guard_per_sibling :
+  cascades_for C06sa_schema n_dept n_sponsor = [n_mgr; n_ctr] /\ cascades_for C06sa_schema n_room n_desk = [n_mgr; n_ctr].
+Proof. vm_compute. split; reflexivity. Qed.
+Example C06sc_one_guard_per_level : cascades_for C06sc_schema n_dept n_sponsor = [n_mgr; n_ctr; n_emp].
+Proof. vm_compute. reflexivity. Qed.
+(* dropping the guard of ONE sibling (what a registry keyed by "<entity type>.<field>" does) leaves a refused schema *)
+Example sibling_guard_dropped_refused :
+  wf_notrace_b (drop_cons_of n_dept (fun k => match k with CFkCascade rs _ _ => negb (str_eqb rs n_ctr) | _ => true end) C06sa_schema) = false.
+Proof. vm_compute. reflexivity. Qed.
+Example sibling_restrict_guard_dropped_refused :
+  wf_notrace_b (drop_cons_of n_room (fun k => match k with CFkCascade rs _ _ => negb (str_eqb rs n_ctr) | _ => true end) C06sa_schema) = false.
+Proof. vm_compute. reflexivity. Qed.
+(* what stays refused - and is therefore only exercised across families: unique indexes (and set indexes) of two stores of ONE
+   family on an equally named field (the index buckets are kept per entity type and field name: the two would share one bucket),
+   and two fk indexes that keep back-reference sets of the same name on one target *)
+Example sibling_unique_same_name_refused :
+  wf_notrace_b (add_cons_to n_ctr (CUnique n_desk true) (add_cons_to n_mgr (CUnique n_desk true) C06sa_schema)) = false.
+Proof. vm_compute. reflexivity. Qed.
+Example parent_child_unique_same_name_refused :
+  wf_notrace_b (add_cons_to n_mgr (CUnique n_sponsor true) (add_cons_to n_emp (CUnique n_sponsor true) C06sc_schema)) = false.
+Proof. vm_compute. reflexivity. Qed.
+Example sibling_backref_same_name_refused :
+  wf_notrace_b (map (fun d => mkSdef (sd_name d) (sd_parent d) (sd_ext d) (sd_fields d) (sd_sets d)
+                              (map (fun k => match k with
+                                             | CFkIndex f t b nl => if str_eqb b n_ctrs then CFkIndex f t n_mgrs nl else k
+                                             | _ => k end) (sd_cons d)) (sd_links d)) C06sb_schema) = false.
+Proof. vm_compute. reflexivity. Qed.
